@@ -124,6 +124,9 @@ struct Session {
                     continue;
                 }
                 if (!g_keep_files) unlink((outs[i].name + suffix()).c_str());
+            } else if (outs[i].keep_fd < 0) {
+                out += " NONE";          // the destination of a refused rotation
+                continue;
             } else {
                 data = slurp_fd(outs[i].keep_fd);
                 close(outs[i].keep_fd);
@@ -195,6 +198,14 @@ std::string run_session(const std::string& line, int line_no) {
                     std::size_t w = 0;
                     try { w = S.exp->rotate_output(name, a[1] == "1"); } catch (...) { snapshot(); throw; }
                     snapshot();
+                    r = std::to_string(w);
+                } else if (a[0] == "bad") {
+                    // rotation to a destination that cannot be opened: an invalid descriptor / a file in a directory that does not exist
+                    Output o; o.named = false; o.keep_fd = -1;
+                    S.outs.push_back(o);
+                    bool named_session = !S.outs.empty() && S.outs.front().named;
+                    std::size_t w = named_session ? S.exp->rotate_output(std::string("/nonexistent-dir-cdnsvh/out"), a[1] == "1")
+                                                  : S.exp->rotate_output(-1, a[1] == "1");
                     r = std::to_string(w);
                 } else {
                 Output o = S.new_target(a[0] == "nm", fd, name);
